@@ -39,7 +39,8 @@ type decRes struct {
 	Err     string        `json:"err"`     // "" | error kind
 	Equal   bool          `json:"equal"`   // proto.Equal(decoded, original)
 	Unknown int           `json:"unknown"` // bytes of unknown fields kept by the decoder
-	Dump    []interface{} `json:"dump"`    // abstract value of the decoded message
+	Same    bool          `json:"same"`    // the abstract value of the decoded message is the input value
+	Dump    []interface{} `json:"dump"`    // that abstract value, when it differs (null when Same)
 }
 
 type leanRes struct {
@@ -100,7 +101,7 @@ func safely(f func() error) (err error) {
 	return f()
 }
 
-func decodeWith(md protoreflect.MessageDescriptor, orig proto.Message, data []byte, vt bool) decRes {
+func decodeWith(md protoreflect.MessageDescriptor, orig proto.Message, want interface{}, data []byte, vt bool) decRes {
 	var r decRes
 	m, err := newMsg(md)
 	if err != nil {
@@ -128,6 +129,9 @@ func decodeWith(md protoreflect.MessageDescriptor, orig proto.Message, data []by
 		r.Dump = dump(pm.ProtoReflect(), &r.Unknown)
 		return nil
 	})
+	if r.Dump != nil && reflect.DeepEqual(normJSON(r.Dump), want) {
+		r.Same, r.Dump = true, nil
+	}
 	return r
 }
 
@@ -143,6 +147,7 @@ func (s *schema) execCase(in *caseIn, lean []variant, leanErr string) (*obsT, er
 		return nil, err
 	}
 	o := &obsT{LeanErr: leanErr}
+	want := normJSON(in.Val)
 	var pb, vtb []byte
 	err = safely(func() error {
 		var e error
@@ -173,14 +178,14 @@ func (s *schema) execCase(in *caseIn, lean []variant, leanErr string) (*obsT, er
 		o.VTErr = "other"
 	}
 	if o.PBErr == "" {
-		o.PB2VT = decodeWith(md, orig, pb, true)
-		o.PB2PB = decodeWith(md, orig, pb, false)
+		o.PB2VT = decodeWith(md, orig, want, pb, true)
+		o.PB2PB = decodeWith(md, orig, want, pb, false)
 	} else {
 		o.PB2VT.Err, o.PB2PB.Err = "no-input", "no-input"
 	}
 	if o.VTErr == "" {
-		o.VT2PB = decodeWith(md, orig, vtb, false)
-		o.VT2VT = decodeWith(md, orig, vtb, true)
+		o.VT2PB = decodeWith(md, orig, want, vtb, false)
+		o.VT2VT = decodeWith(md, orig, want, vtb, true)
 	} else {
 		o.VT2PB.Err, o.VT2VT.Err = "no-input", "no-input"
 	}
@@ -190,21 +195,8 @@ func (s *schema) execCase(in *caseIn, lean []variant, leanErr string) (*obsT, er
 			return nil, fmt.Errorf("lean variant %s: %v", lv.Name, err)
 		}
 		lr := leanRes{Name: lv.Name, Hex: lv.Hex}
-		lr.PB = decodeWith(md, orig, data, false)
-		lr.VT = decodeWith(md, orig, data, true)
-		// keep the line small: a dump identical to the input is replaced by null
-		// (the driver treats dump == null && ok as "same as in.val" only for lean variants,
-		// where `equal` and the Lean decoder's own verdict on the same bytes are also checked)
-		if lr.PB.Ok && reflect.DeepEqual(normJSON(lr.PB.Dump), normJSON(in.Val)) {
-			lr.PB.Dump = nil
-		} else if lr.PB.Ok && lr.PB.Dump == nil {
-			lr.PB.Dump = []interface{}{}
-		}
-		if lr.VT.Ok && reflect.DeepEqual(normJSON(lr.VT.Dump), normJSON(in.Val)) {
-			lr.VT.Dump = nil
-		} else if lr.VT.Ok && lr.VT.Dump == nil {
-			lr.VT.Dump = []interface{}{}
-		}
+		lr.PB = decodeWith(md, orig, want, data, false)
+		lr.VT = decodeWith(md, orig, want, data, true)
 		o.Lean = append(o.Lean, lr)
 	}
 	return o, nil
